@@ -33,6 +33,14 @@ def clutter(rng, cfg):
             fixed + b"_r00001" + sfx + b".gz", fixed + b"_r2024-02-29_23-59-58.restart-0000" + sfx, fixed + b"_r2024-02-29_23-59-58.restart-xy" + sfx,
             fixed + b"_r2024-02-29_23-59-58.restart-00" + sfx, fixed + sfx, fixed + b"_r99999" + sfx, fixed + b"_r100000" + sfx,
             fixed + b"_r+3" + sfx, fixed + b"_r20240229-235958" + sfx, fixed + b"_r2024-13-45_99-99-99" + sfx, fixed + b"x" + sfx]
+    # restart siblings of the very infix the logger is about to use, with counters of any length
+    import datetime
+    t = datetime.datetime.utcfromtimestamp(g.T0)
+    nm = cfg.naming.split(".")
+    infix = t.strftime(bytes.fromhex(nm[2]).decode()).encode() if nm[0] == "cu" else b"r2024-02-29_23-59-58"
+    for cnt in (b"0000", b"9999", b"00000000000000000000001", b"99999999999999999999999", b"18446744073709551615", b"0007x"):
+        pool.append(fixed + b"_" + infix + b".restart-" + cnt + sfx)
+    pool.append(fixed + b"_" + infix + b".restart-123456789012345678901" + sfx + b".gz")
     pool = [n for n in pool if n]      # (an empty name is no file name)
     return rng.sample(pool, rng.randint(1, min(5, len(pool))))
 
